@@ -212,12 +212,15 @@ Definition unescape_char (e : N) : option N :=
   else if e =? 117 then Some 0        (* \u: pushes NUL, the hex digits stay literal *)
   else None.
 
+(* linear-time reverse (Coq's List.rev is quadratic when extracted) *)
+Definition lrev {A : Type} (l : list A) : list A := rev_append l [].
+
 (* ParseString; starts after the opening quote; acc is reversed *)
 Fixpoint parse_str (l : list N) (acc : list N) : pres (list N) :=
   match l with
   | [] => PErr 2
   | c :: r =>
-      if c =? 34 then POk (rev acc) r
+      if c =? 34 then POk (lrev acc) r
       else if c =? 92 then
         match r with
         | [] => PErr 3
@@ -331,7 +334,7 @@ with parse_elems (fuel : nat) (depth : N) (l : list N) (acc : list jv) {struct f
     | POk v r1 =>
       match trim r1 with
       | [] => PErr 4
-      | c2 :: r2 => if c2 =? 93 then POk (JArr (rev (v :: acc))) r2
+      | c2 :: r2 => if c2 =? 93 then POk (JArr (lrev (v :: acc))) r2
                     else if c2 =? 44 then parse_elems f depth r2 (v :: acc)
                     else PErr 5
       end
